@@ -27,6 +27,10 @@ type mgmtVariant struct {
 	app, ep string
 	route   string // PUT body
 	wantMap bool   // the mapping exists afterwards
+	// pending: what the operator saved to the file without reloading, before
+	// the mutation arrives. The mutation works from the file, so a 2xx answer
+	// makes all of it the running configuration - tokens included.
+	pending *SysSpec
 }
 
 func mgmtVariantByName(name string) *mgmtVariant {
@@ -48,6 +52,13 @@ func mgmtVariantByName(name string) *mgmtVariant {
 		s := base()
 		s.Routes[0].App, s.Routes[0].Endpoint = "billing", "invoice"
 		return &mgmtVariant{spec: s, method: "PUT", app: "billing", ep: "invoice", route: "/c", wantMap: true}
+	case "upsert-pending-edit":
+		// the file on disk has a rotated global pull token and a new route with
+		// tokens of its own; nobody has reloaded yet
+		p := base()
+		p.PullTokens = []string{"pull-token-2"}
+		p.Routes = append(p.Routes, RouteSpec{Path: "/d", PullPath: "/pull/d", PullTokens: []string{"d-token"}})
+		return &mgmtVariant{spec: base(), pending: p, method: "PUT", app: "billing", ep: "invoice", route: "/b", wantMap: true}
 	case "upsert-sqlite":
 		s := base()
 		s.Backend = "sqlite"
@@ -114,6 +125,12 @@ func (v *mgmtVariant) run(failAt int, failErr error, crashAt int) (*mgmtRun, str
 		return nil, "node: " + err.Error() + "\n" + spec.Render()
 	}
 	r := &mgmtRun{w: w}
+	if v.pending != nil {
+		if err := os.WriteFile(w.cfgPath, []byte(v.pending.Render()), 0o600); err != nil {
+			w.Close()
+			return nil, err.Error()
+		}
+	}
 	r.old, err = os.ReadFile(w.cfgPath)
 	if err != nil {
 		w.Close()
@@ -276,6 +293,32 @@ func runMgmtCase(res *Result, s Step) {
 			if r.mapped != v.wantMap || (v.wantMap && v.route != "" && r.mappedTo != v.route) {
 				addV("C18.mgmt.answer_running", "%s: answered %d but the running configuration maps %s/%s -> %v(%s), want %v(%s)", s.Route, r.status, v.app, v.ep, r.mapped, r.mappedTo, v.wantMap, v.route)
 			}
+			if v.pending != nil {
+				// the running configuration is the file: who may pull is decided
+				// by the token lists the file declares (route tokens replace the
+				// global ones), on every endpoint the file declares
+				for _, pr := range []struct {
+					ep, tok string
+					want    int
+				}{
+					{"/pull/a", "pull-token-2", 200}, {"/pull/a", "pull-token-1", 401}, {"/pull/a", "", 401},
+					{"/pull/d", "d-token", 200}, {"/pull/d", "pull-token-2", 401}, {"/pull/d", "pull-token-1", 401}, {"/pull/d", "", 401},
+				} {
+					hdrs := []KV{{"Content-Type", "application/json"}}
+					if pr.tok != "" {
+						hdrs = append(hdrs, KV{"Authorization", "Bearer " + pr.tok})
+					}
+					preq, _ := NewRequest("POST", pr.ep+"/dequeue", "pull.internal", "10.9.9.9:5", hdrs, []byte(`{"batch":1,"lease_ttl":"1s"}`))
+					got := r.w.Do("mgmtpull", r.w.Pull, preq).Status
+					res.probe("mgmt.pending_edit.pull_probe")
+					if got != pr.want {
+						vv := viol("C11.mgmt.tokens", "C11,C18", "%s: after the management call was answered %d the file (and so the running configuration) declares other tokens than the Pull API honours: dequeue on %s with token %q answered %d, the file's token lists say %d", s.Route, r.status, pr.ep, pr.tok, got, pr.want)
+						vv.Loc = loc
+						res.Violations = append(res.Violations, vv)
+						res.logf("  VIOLATION %s", vv.String())
+					}
+				}
+			}
 		} else {
 			res.probe("mgmt.refused")
 			if failAt >= 0 && failAt == base.reloadRead {
@@ -311,7 +354,7 @@ func EnumMgmtCases() []*Program {
 	mk := func(variant, reason string, k int) *Program {
 		return &Program{World: "mgmt", Steps: []Step{{Op: "mgmtcase", Route: variant, Reason: reason, Batch: k}}}
 	}
-	for _, variant := range []string{"upsert", "delete", "move", "upsert-sqlite"} {
+	for _, variant := range []string{"upsert", "delete", "move", "upsert-sqlite", "upsert-pending-edit"} {
 		out = append(out, mk(variant, "none", 0))
 		n := 26 // upper bound on os calls incl. rollback; cases beyond the last call are no-ops
 		for k := 0; k <= n; k++ {
@@ -332,7 +375,7 @@ func init() {
 		Enum:       EnumMgmtCases,
 		Level:      "fault_enumeration",
 		NonTrivial: func(p *Program, r *Result) bool { return r.Probes["mgmt.image"] > 0 },
-		Rule:       "W-mgmt, exhaustive: PUT / DELETE of an application/endpoint mapping through the real Admin handler on a fresh node (4 variants: upsert, delete, move, upsert on SQLite), the os calls of mutateManagedEndpointConfig / writeFileAtomic / reloadConfig rerouted to simfs: no fault; EIO/ENOSPC/EACCES at every call; a crash before every call x every post-crash image; the reload's read failing (rollback path) followed by a crash before every later call. Oracle: the config path always holds the complete old or the complete new content, the new content compiles, a 2xx answer means file = new and running = new, any other answer means the previous content is back and the running mapping unchanged, and the file still reloads",
+		Rule:       "W-mgmt, exhaustive: PUT / DELETE of an application/endpoint mapping through the real Admin handler on a fresh node (5 variants: upsert, delete, move, upsert on SQLite, upsert while the file holds an operator's edit that nobody has reloaded yet - rotated global pull token, new route with tokens of its own: after a 2xx the Pull API honours exactly the token lists the file declares), the os calls of mutateManagedEndpointConfig / writeFileAtomic / reloadConfig rerouted to simfs: no fault; EIO/ENOSPC/EACCES at every call; a crash before every call x every post-crash image; the reload's read failing (rollback path) followed by a crash before every later call. Oracle: the config path always holds the complete old or the complete new content, the new content compiles, a 2xx answer means file = new and running = new, any other answer means the previous content is back and the running mapping unchanged, and the file still reloads",
 		RealStub: map[string]string{
 			"admin.Server management handlers, app.mutateManagedEndpointConfig, applyManagedEndpointUpsert/Delete, config.Format/Parse/Compile, writeFileAtomic, reloadConfig": "real (node assembled by app.VerifNewNode; os calls rerouted to verifos by the check-time rewrite)",
 			"file system durability": "simulated (simfs journal)",
@@ -340,4 +383,18 @@ func init() {
 		},
 		Quick: 1, Thorough: 1,
 	})
+	// the same enumeration judged for C11: token lists after a management mutation
+	c := *Registry["C18/mgmt"]
+	c.Prop = "C11"
+	c.Enum = func() []*Program {
+		var out []*Program
+		for _, p := range EnumMgmtCases() {
+			if p.Steps[0].Route == "upsert-pending-edit" {
+				out = append(out, p)
+			}
+		}
+		return out
+	}
+	c.Rule = "management mutation while the file holds an operator's edit that nobody has reloaded yet (rotated global pull token, new route with tokens of its own), with a fault at every os call as in W-mgmt: after a 2xx answer the Pull API honours exactly the token lists the file declares (route tokens replace global ones; no token = 401) on every endpoint the file declares"
+	Register(&c)
 }
